@@ -1,12 +1,185 @@
-(* C10 -- stub, completed below in the final version *)
-From Coq Require Import List Arith Bool QArith Qcanon.
-From PD Require Import Base.Field Base.Matrix Model.Poly Base.Series Spec.ODESeries Model.Jet Proofs.JetProofs.
-Import ListNotations.
+(* C10 -- Taylor-coefficient initialisation returns the exact solution derivatives.
 
+   Statements only; every theorem is closed by [exact <lemma>] (lemmas in
+   Proofs/JetProofs.v) and followed by Print Assumptions.
+
+   Objects.  A vector field (Spec/ODESeries.v, [vfield]) is an order k, a
+   dimension d and one polynomial per dimension (Model/Poly.v: lists of
+   (coefficient, exponent vector)) over the variables x_{j,b} (index j*d+b,
+   j < k: component b of u^(j)) and t (index k*d).  F is any field of
+   characteristic 0 (FieldLaws); nothing is bounded (degree, d, k >= 1, num).
+
+   Specification (Spec/ODESeries.v).  [is_formal_solution v t0 a]: the formal power
+   series U_b(tau) = sum_n a n b tau^n satisfies U^(k) = f(U, .., U^(k-1), t0 + tau)
+   coefficient by coefficient, where composition of a polynomial with series
+   ([fs_compose]) is evaluation in the ring of formal power series (Cauchy
+   product; Base/Series.v) and [curve_fs a j b] is the j-th formal derivative
+   of U_b.  [spec_derivs v t0 inits num] computes (u, u', .., u^(k-1+num))(t0)
+   = (n! a_n)_n by the obvious recursion from the k initial derivative vectors.
+
+   Model (Model/Jet.v): transcription of jet_expansion_algorithms.py and of
+   args_autonomous_and_jet_compatible; jax.experimental.jet on a polynomial
+   program is composition of truncated power series (an oracle: its conformance
+   is measured by the correspondence check harness/c10.py).  *)
+From Coq Require Import List Arith Bool QArith Qcanon.
+From PD Require Import Base.Field Base.Matrix Model.Poly Base.Series Spec.ODESeries Model.Jet
+  Proofs.JetProofs.
+Import ListNotations.
+Local Close Scope Qc_scope.
+Local Close Scope Q_scope.
+Local Open Scope nat_scope.
+
+(* T10.1  Uniqueness: two formal solutions of the same field with the same
+   initial coefficients a_0 .. a_{k-1} have the same coefficients, for all n. *)
+Theorem C10_formal_solution_is_unique :
+  forall (F : Type) (H : FieldOps F) (FL : FieldLaws F)
+         (v : @vfield F) (t0 : F) (a a' : nat -> nat -> F),
+    is_formal_solution v t0 a -> is_formal_solution v t0 a' ->
+    (forall j b, j < vf_k v -> b < vf_d v -> a j b = a' j b) ->
+    forall n b, b < vf_d v -> a n b = a' n b.
+Proof. exact @formal_solution_unique. Qed.
+
+(* T10.1'  Existence: the recursion of the specification, started from any k
+   coefficient vectors A0, produces a formal solution (so [spec_derivs] really
+   is "the derivatives of the true (formal) solution"). *)
+Theorem C10_recursion_computes_a_formal_solution :
+  forall (F : Type) (H : FieldOps F) (FL : FieldLaws F)
+         (v : @vfield F) (t0 : F) (A0 : list (list F)),
+    length A0 = vf_k v ->
+    is_formal_solution v t0
+      (fun n b => vget (nth n (spec_coeffs v t0 A0 (S n - length A0)) []) b).
+Proof. exact @spec_is_formal_solution. Qed.
+
+(* T10.2a  jetexpand_ode_unroll: for EVERY polynomial vector field of order
+   k >= 1 (time-dependent or not), every num and every well-formed input (d
+   polynomials, k initial vectors of d entries), the model returns exactly
+   (u, u', ..., u^(k-1+num))(t0) of the formal solution. *)
+Theorem C10_unroll_returns_the_solution_derivatives :
+  forall (F : Type) (H : FieldOps F) (FL : FieldLaws F)
+         (v : @vfield F) (t0 : F) (inits : list (list F)) (num : nat),
+    1 <= vf_k v ->
+    (length (vf_f v) = vf_d v /\ length inits = vf_k v /\
+     forall j, j < vf_k v -> length (nth j inits []) = vf_d v) ->
+    unroll_model v inits t0 num = Some (spec_derivs v t0 inits num).
+Proof. exact @unroll_correct. Qed.
+
+(* T10.2b  jetexpand_ode_padded_scan (zero padding to k+num entries, increment,
+   drop the last entry, num-1 times): same statement. *)
+Theorem C10_padded_scan_returns_the_solution_derivatives :
+  forall (F : Type) (H : FieldOps F) (FL : FieldLaws F)
+         (v : @vfield F) (t0 : F) (inits : list (list F)) (num : nat),
+    1 <= vf_k v ->
+    (length (vf_f v) = vf_d v /\ length inits = vf_k v /\
+     forall j, j < vf_k v -> length (nth j inits []) = vf_d v) ->
+    padded_scan_model v inits t0 num = Some (spec_derivs v t0 inits num).
+Proof. exact @padded_scan_correct. Qed.
+
+(* T10.3  jetexpand_ode_via_jvp (F_0 = f, F_{n+1} = <grad_x F_n, (x_1, .., x_{k-1}, f)>,
+   t closed over): correct for AUTONOMOUS fields, i.e. when no monomial of f
+   has a non-zero exponent at the time variable (index k*d). *)
+Theorem C10_via_jvp_correct_for_autonomous_fields :
+  forall (F : Type) (H : FieldOps F) (FL : FieldLaws F)
+         (v : @vfield F) (t0 : F) (inits : list (list F)) (num : nat),
+    1 <= vf_k v ->
+    (length (vf_f v) = vf_d v /\ length inits = vf_k v /\
+     forall j, j < vf_k v -> length (nth j inits []) = vf_d v) ->
+    (forall p, In p (vf_f v) ->
+       forall m, In m p -> nth (vf_k v * vf_d v) (snd m) 0 = 0) ->
+    via_jvp_model v inits t0 num = Some (spec_derivs v t0 inits num).
+Proof. exact @via_jvp_correct_autonomous. Qed.
+
+(* T10.3_refuted  ... and WRONG for time-dependent fields on the current tree
+   (finding F4): for u' = t u + t^2, u(1/2) = 1 the derivatives are
+   (1, 3/4, 19/8, 75/16) while the routine returns (1, 3/4, 3/8, 3/16). *)
 Theorem C10_via_jvp_time_dependent_refuted :
   exists (v : @vfield Qc) (inits : list (list Qc)) (t0 : Qc) (num : nat),
-    vf_k v = 1%nat /\ length inits = 1%nat /\
+    1 <= vf_k v /\
+    (length (vf_f v) = vf_d v /\ length inits = vf_k v /\
+     forall j, j < vf_k v -> length (nth j inits []) = vf_d v) /\
     via_jvp_model v inits t0 num <> Some (spec_derivs v t0 inits num).
 Proof. exact P_via_jvp_time_dependent_refuted. Qed.
 
+Theorem C10_via_jvp_witness_values :
+  map (map (fun x : Qc => this x)) (spec_derivs witness_field witness_t0 witness_inits 3)
+    = [[1 # 1]; [3 # 4]; [19 # 8]; [75 # 16]]%Q /\
+  match via_jvp_model witness_field witness_inits witness_t0 3 with
+  | Some l => map (map (fun x : Qc => this x)) l = [[1 # 1]; [3 # 4]; [3 # 8]; [3 # 16]]%Q
+  | None => False
+  end.
+Proof. exact P_via_jvp_witness_values. Qed.
+
+(* T10.4  jetexpand_ode_doubling_unroll (Newton doubling on normalised coefficients:
+   jet of the zero-padded coefficients, jvp of that jet, division by the order,
+   factorial rescaling at the end; first order only): correct for AUTONOMOUS
+   first-order fields, for every number of doublings nd (2^(nd+1) - 1 derivative
+   vectors are returned). *)
+Theorem C10_doubling_correct_for_autonomous_first_order_fields :
+  forall (F : Type) (H : FieldOps F) (FL : FieldLaws F)
+         (v : @vfield F) (t0 : F) (inits : list (list F)) (nd : nat),
+    vf_k v = 1 ->
+    (length (vf_f v) = vf_d v /\ length inits = vf_k v /\
+     forall j, j < vf_k v -> length (nth j inits []) = vf_d v) ->
+    (forall p, In p (vf_f v) ->
+       forall m, In m p -> nth (vf_k v * vf_d v) (snd m) 0 = 0) ->
+    doubling_model v inits t0 nd = Some (spec_derivs v t0 inits (2 ^ (S nd) - 2)).
+Proof. exact @doubling_correct_autonomous. Qed.
+
+(* T10.4_refuted  jetexpand_ode_doubling_unroll also closes over t: same witness,
+   one doubling returns (1, 3/4, 3/8) instead of (1, 3/4, 19/8). *)
+Theorem C10_doubling_time_dependent_refuted :
+  exists (v : @vfield Qc) (inits : list (list Qc)) (t0 : Qc) (nd : nat),
+    vf_k v = 1 /\
+    (length (vf_f v) = vf_d v /\ length inits = vf_k v /\
+     forall j, j < vf_k v -> length (nth j inits []) = vf_d v) /\
+    doubling_model v inits t0 nd <> Some (spec_derivs v t0 inits (2 ^ (S nd) - 2)).
+Proof. exact P_doubling_time_dependent_refuted. Qed.
+
+(* T10.5  The routines agree on their common domain. *)
+Theorem C10_routines_agree :
+  forall (F : Type) (H : FieldOps F) (FL : FieldLaws F)
+         (v : @vfield F) (t0 : F) (inits : list (list F)) (num : nat),
+    1 <= vf_k v ->
+    (length (vf_f v) = vf_d v /\ length inits = vf_k v /\
+     forall j, j < vf_k v -> length (nth j inits []) = vf_d v) ->
+    padded_scan_model v inits t0 num = unroll_model v inits t0 num /\
+    ((forall p, In p (vf_f v) ->
+        forall m, In m p -> nth (vf_k v * vf_d v) (snd m) 0 = 0) ->
+     via_jvp_model v inits t0 num = unroll_model v inits t0 num).
+Proof. exact @routines_agree. Qed.
+
+Theorem C10_doubling_agrees_with_unroll_on_autonomous_first_order_fields :
+  forall (F : Type) (H : FieldOps F) (FL : FieldLaws F)
+         (v : @vfield F) (t0 : F) (inits : list (list F)) (nd : nat),
+    vf_k v = 1 ->
+    (length (vf_f v) = vf_d v /\ length inits = vf_k v /\
+     forall j, j < vf_k v -> length (nth j inits []) = vf_d v) ->
+    (forall p, In p (vf_f v) ->
+       forall m, In m p -> nth (vf_k v * vf_d v) (snd m) 0 = 0) ->
+    doubling_model v inits t0 nd = unroll_model v inits t0 (2 ^ (S nd) - 2).
+Proof. exact @doubling_agrees_with_unroll. Qed.
+
+(* T10.6  The candidate repair of jetexpand_ode_via_jvp -- t handed to jvp as one
+   more primal with tangent 1, i.e. F_{n+1} = <grad_x F_n, (x_1,..,f)> + dF_n/dt
+   ([via_jvp_fixed_model], Proofs/JetProofs.v) -- is correct for EVERY
+   polynomial field, time-dependent or not. *)
+Theorem C10_via_jvp_with_time_tangent_is_correct :
+  forall (F : Type) (H : FieldOps F) (FL : FieldLaws F)
+         (v : @vfield F) (t0 : F) (inits : list (list F)) (num : nat),
+    1 <= vf_k v ->
+    (length (vf_f v) = vf_d v /\ length inits = vf_k v /\
+     forall j, j < vf_k v -> length (nth j inits []) = vf_d v) ->
+    via_jvp_fixed_model v inits t0 num = Some (spec_derivs v t0 inits num).
+Proof. exact @via_jvp_fixed_correct. Qed.
+
+Print Assumptions C10_formal_solution_is_unique.
+Print Assumptions C10_recursion_computes_a_formal_solution.
+Print Assumptions C10_unroll_returns_the_solution_derivatives.
+Print Assumptions C10_padded_scan_returns_the_solution_derivatives.
+Print Assumptions C10_via_jvp_correct_for_autonomous_fields.
 Print Assumptions C10_via_jvp_time_dependent_refuted.
+Print Assumptions C10_via_jvp_witness_values.
+Print Assumptions C10_doubling_correct_for_autonomous_first_order_fields.
+Print Assumptions C10_doubling_time_dependent_refuted.
+Print Assumptions C10_routines_agree.
+Print Assumptions C10_doubling_agrees_with_unroll_on_autonomous_first_order_fields.
+Print Assumptions C10_via_jvp_with_time_tangent_is_correct.
